@@ -13,6 +13,7 @@
 -/
 import YashModel.Common.Proto
 import YashModel.Redir.Nested
+import YashModel.Redir.Init
 open YashModel YashModel.Redir YashModel.Proto
 
 def fileName (i : Nat) : String :=
@@ -37,8 +38,10 @@ def parseRedir (s : String) : Option Redir :=
     let fd ← fd.toNat?
     if operand = "E" ∧ op ≠ "here" then pure ⟨fd, .expErr⟩ else
     if operand = "N" ∧ (fileOpOf op).isSome then pure ⟨fd, .nulPath⟩ else
-    if (operand = "ca" ∨ operand = "cm") ∧ (fileOpOf op).isSome then
-      (fileOpOf op).map fun o => ⟨fd, .fileCs o (if operand = "ca" then 3 else 5)⟩ else
+    if (operand = "ca" ∨ operand = "cm" ∨ operand = "c3" ∨ operand = "c5m") ∧ (fileOpOf op).isSome then
+      -- `$(echo /tmp/a)`, `$(echo /tmp/m)`, `$(echo /tmp/a; exit 3)`, `$(echo /tmp/m; exit 5)`
+      (fileOpOf op).map fun o => ⟨fd, .fileCs o (if operand = "ca" ∨ operand = "c3" then 3 else 5)
+        (if operand = "c3" then 3 else if operand = "c5m" then 5 else 0)⟩ else
     match op with
     | "in" => do pure ⟨fd, .file .fileIn (← pathOf operand)⟩
     | "out" => do pure ⟨fd, .file .fileOut (← pathOf operand)⟩
@@ -74,29 +77,6 @@ def parseKind (s : String) : Option Kind :=
   | "execnf" => some .execNotFound | "execne" => some .execNoExec | "cmdexecnf" => some .commandExecNotFound
   | "guard" => some .guardUndo | "guardkeep" => some .guardKeep
   | _ => none
-
-/-- initial world and table: standard descriptors (read-write, appending), then the pre-opened ones -/
-def initial (nc : Bool) (lim : Option Nat) (pre : List String) (inter : Bool := false) : Option (World × FdTable) := do
-  let w0 : World := stdWorld nc inter
-  let t0 : FdTable := stdTable
-  let rec go (w : World) (t : FdTable) : List String → Option (World × FdTable)
-    | [] => some (w, t)
-    | p :: ps =>
-      let cs := p.toList
-      match cs.reverse with
-      | m :: rfd => do
-        let fd ← (String.ofList rfd.reverse).toNat?
-        if m = 'x' then go w (t.close fd) ps else
-        let acc ← (match m with
-          | 'r' => some (true, false, false) | 'w' => some (false, true, false)
-          | 'b' => some (true, true, false) | 'c' => some (true, true, true)
-          -- read-only / write-only and CLOEXEC
-          | 'R' => some (true, false, true) | 'W' => some (false, true, true) | _ => none)
-        go { w with ofds := w.ofds ++ [⟨9, acc.1, acc.2.1, false, 0⟩] }
-           (t.put fd (some ⟨w.ofds.length, acc.2.2⟩)) ps
-      | [] => none
-  let (w, t) ← go w0 t0 pre
-  pure (w, { t with limit := lim })
 
 def hexOf (bs : List Nat) : String :=
   if bs.isEmpty then "-" else bytesToHex (bs.map UInt8.ofNat)
@@ -145,7 +125,7 @@ def obsD (tr : Trace) : String :=
     | some (steps, cause) =>
       -- the guard driven directly: the table after every `perform_redir`, then the error cause
       let ss := steps.map fun (ws, ts) => showSnap ws ts
-      s!"G:{"/".intercalate ss}|e{(cause.map showCause).getD "-"}"
+      s!"G:{"/".intercalate ss}|e{(cause.map showCause).getD "-"}|x{(tr.cs.map toString).getD "-"}"
     | none =>
     match tr.during, tr.wrote, tr.readRes with
     | some (wd, td), some wrote, some (rd, tainted) =>
@@ -165,12 +145,16 @@ def obsA (tr : Trace) : String :=
 def observeCmd (ct : CmdTrace) : String :=
   match ct.inner with
   | none => s!"D={obsD ct.tr} A={obsA ct.tr}"
-  | some (wi, ti, tri) => s!"D=N:{showSnap wi ti}~{obsD tri}~{obsA tri} A={obsA ct.tr}"
+  | some (wi, ti, tri) =>
+    -- an interrupted inner command (interactive shell) skips the rest of the outer body: no second `imark`
+    let second := if ct.innerInterrupted then "-" else obsA tri
+    s!"D=N:{showSnap wi ti}~{obsD tri}~{second} A={obsA ct.tr}"
 
 /-- kinds of the nested family: the inner command's kind -/
 def parseNestKind (s : String) : Option Kind :=
   match s with
-  | "nest" | "nestfn" => some .regular | "nestsp" => some .special | "nestexec" => some .exec
+  -- the outer command is `{ }`, a function call, `for`, `if` or `case`: all use the guard alike
+  | "nest" | "nestfn" | "nestfor" | "nestif" | "nestcase" => some .regular | "nestsp" => some .special | "nestexec" => some .exec
   | "nestnf" => some .notFound | "nestcolon" => some .colon | "nestexecnf" => some .execNotFound
   | _ => none
 
@@ -211,14 +195,12 @@ def runLine (line : String) : String :=
         let lim ← (if lim = "-" then some none else lim.toNat?.map some)
         let pre := if pre = "-" then [] else pre.splitOn ","
         let cmds ← parseCmds cmdFields
-        -- nested commands are run in non-interactive shells only (the model has no `Divert::Interrupt`
-        -- travelling through the outer command back to the read-eval loop)
-        if cmds.isEmpty || (inter && cmds.any Cmd.isNested) then none else pure (nc != 0, lim, pre, cmds, inter)
+        if cmds.isEmpty then none else pure (nc != 0, lim, pre, cmds, inter)
       | _ => none
     match parsed with
     | none => "bad-case\t-"
     | some (nc, lim, pre, cmds, inter) =>
-      match initial nc lim pre inter with
+      match initState nc lim pre inter with
       | none => "bad-case\t-"
       | some (w0, t0) =>
         let trs := runScript2 w0 t0 0 cmds
